@@ -231,14 +231,14 @@ def G.clearSinkErr (g : G) (height : Nat) : G :=
   | some (_, h) => if h == height then { g with sinkErr := none } else g
   | none => g
 
-/-- C05: when the handler of an upstream `Error(e)` returns, every sink that was live has received exactly that error and
-no upstream is live any more -/
+/-- C05: when the handler of an upstream `Error(e)` returns, every sink that was live — and has not detached by itself in the
+meantime (possible only through a cross-sink call, `EnvX.lean`) — has received exactly that error and no upstream is live any more -/
 def G.checkPend (g : G) (height : Nat) : G :=
   match g.pend with
   | some (e, h, ks) =>
     if h == height then
       { g with pend := none }.flagAll
-        (((ks.filter (fun k => g.finOf k != some (Fin.err e))).map (Viol.errLost e)) ++ ((liveSrcs g.ph).map (Viol.errSibling e)))
+        (((ks.filter (fun k => g.finOf k != some (Fin.err e) && g.ph.sinkPh k != SinkPh.doneBySelf)).map (Viol.errLost e)) ++ ((liveSrcs g.ph).map (Viol.errSibling e)))
     else g
   | none => g
 
